@@ -16,8 +16,7 @@ Cross-radix theorems: `NormL.CrossCtx bits ab rb rs 0 H a` = `bits ∈ {64,128}`
    none for the value properties.  Remarks on the cross-radix theorems:
    (1) [closed] termination of the fuelled inner loop: `normalize_cross_terminates` proves the routine
        always returns, so the hypotheses `… = some out` are always satisfiable (`…_total` forms);
-   (2) exactness is stated at limb granularity of `a` (`ab·a_size ≤ rb·rs + ⌊off/ab⌋·ab`); the
-       bit-granular condition of the same-radix theorem (`ab·a_size − off ≤ rb·rs`) is not claimed.
+   (2) [closed] exactness holds under the bit-granular condition `ab·a_size − off ≤ rb·rs`, as for equal radices.
 -/
 -/
 import Poulpy.Lemmas.NormFused
@@ -676,15 +675,15 @@ whenever the routine returns (the model's loop fuel was never exhausted in the c
 has `rs` limbs with `|d| ≤ 2^rb − 1` (not always balanced, see below), and its torus value is
 `a·2^off` *within one unit of the last limb of the result* (`TorusNear`: `|out/2^(rb·rs) − a·2^off/2^(ab·as)| ≤ 2^-(rb·rs)`
 on R/Z — this is the rounding rule of the code: every discarded tail is rounded half-up-ish through the
-balanced digit / rounding right shift, never accumulating more than one unit); the value is *exact* when, in
-whole limbs of `a`, the shifted input fits (`ab·a_size ≤ rb·rs + limbs_offset·ab`, `limbs_offset =
-(splitOffset ab off).2 = ⌊off/ab⌋`). -/
+balanced digit / rounding right shift, never accumulating more than one unit); the value is *exact* when the
+shifted input needs no more bits than the result has (`ab·a_size − off ≤ rb·rs`, the same condition as for
+equal radices). -/
 theorem normalize_cross_value {bits ab rb rs : Nat} {H : Int} {a : List Int}
     (c : CrossCtx bits ab rb rs 0 H a) (off : Int) {out : List Int}
     (h : normalizeCrossCoef bits rb rs off ab a = some out) :
     out.length = rs ∧ (∀ d ∈ out, |d| ≤ 2 ^ rb - 1) ∧
     TorusNear (valI rb out) (rb * rs) (valI ab a * 2 ^ off.toNat) (ab * a.length + (-off).toNat) ∧
-    (((ab * a.length : Nat) : Int) ≤ ((rb * rs : Nat) : Int) + (splitOffset ab off).2 * ab →
+    (((ab * a.length : Nat) : Int) - off ≤ ((rb * rs : Nat) : Int) →
       TorusEq (valI rb out) (rb * rs) (valI ab a * 2 ^ off.toNat) (ab * a.length + (-off).toNat)) :=
   normalizeCrossCoef_value c off h
 
@@ -761,7 +760,7 @@ theorem normalize_value {ab rb rs : Nat} {H : Int} {a : List Int}
     (c : CrossCtx 64 ab rb rs 0 H a) (off : Int) {out : List Int} (h : normalizeCoef rb rs off ab a = some out) :
     out.length = rs ∧ (∀ d ∈ out, |d| ≤ 2 ^ rb - 1) ∧
     TorusNear (valI rb out) (rb * rs) (valI ab a * 2 ^ off.toNat) (ab * a.length + (-off).toNat) ∧
-    (((ab * a.length : Nat) : Int) ≤ ((rb * rs : Nat) : Int) + (splitOffset ab off).2 * ab →
+    (((ab * a.length : Nat) : Int) - off ≤ ((rb * rs : Nat) : Int) →
       TorusEq (valI rb out) (rb * rs) (valI ab a * 2 ^ off.toNat) (ab * a.length + (-off).toNat)) :=
   normalizeCoef_value c off h
 
@@ -771,7 +770,7 @@ theorem big_normalize128_value {ab rb rs : Nat} {H : Int} {a : List Int}
     (c : CrossCtx 128 ab rb rs 0 H a) (off : Int) {out : List Int} (h : bigNormalizeCoef128 rb rs off ab a = some out) :
     out.length = rs ∧ (∀ d ∈ out, |d| ≤ 2 ^ rb - 1) ∧
     TorusNear (valI rb out) (rb * rs) (valI ab a * 2 ^ off.toNat) (ab * a.length + (-off).toNat) ∧
-    (((ab * a.length : Nat) : Int) ≤ ((rb * rs : Nat) : Int) + (splitOffset ab off).2 * ab →
+    (((ab * a.length : Nat) : Int) - off ≤ ((rb * rs : Nat) : Int) →
       TorusEq (valI rb out) (rb * rs) (valI ab a * 2 ^ off.toNat) (ab * a.length + (-off).toNat)) :=
   bigNormalizeCoef128_value c off h
 
